@@ -710,12 +710,12 @@ theorem loop2_inv {rows : List Row} {st : St} {σ : List Nat → List Nat} {τ :
 
 /-! ### yearly maximum -/
 
-structure YearInv (yearOf : Int → Int) (total : Int → Rat) (K : List Int) (m : Int → Option Int) : Prop where
-  none : ∀ y, m y = none → ∀ d ∈ K, yearOf d ≠ y
-  some : ∀ y b, m y = some b → b ∈ K ∧ yearOf b = y ∧
+structure YearInv (yearOf : Int → Int) (total : Int → Rat) (K : List Int) (m : YMap) : Prop where
+  none : ∀ y, m.get y = none → ∀ d ∈ K, yearOf d ≠ y
+  some : ∀ y b, m.get y = some b → b ∈ K ∧ yearOf b = y ∧
     ∀ d ∈ K, yearOf d = y → total d ≤ total b ∧ (total d = total b → b ≤ d)
 
-theorem yearStep_inv {yearOf : Int → Int} {total : Int → Rat} {K : List Int} {m : Int → Option Int} {d : Int}
+theorem yearStep_inv {yearOf : Int → Int} {total : Int → Rat} {K : List Int} {m : YMap} {d : Int}
     (hK : ∀ k ∈ K, k < d) (h : YearInv yearOf total K m) :
     YearInv yearOf total (K ++ [d]) (yearStep yearOf total m d) := by
   unfold yearStep
@@ -798,7 +798,7 @@ theorem yearStep_inv {yearOf : Int → Int} {total : Int → Rat} {K : List Int}
         · simp only [List.mem_singleton] at hk; subst hk; exact absurd hy.symm e
 
 theorem fold_yearStep_inv {yearOf : Int → Int} {total : Int → Rat} (K R : List Int)
-    (hD : (K ++ R).Pairwise (fun a b => a < b)) (m : Int → Option Int) (h : YearInv yearOf total K m) :
+    (hD : (K ++ R).Pairwise (fun a b => a < b)) (m : YMap) (h : YearInv yearOf total K m) :
     YearInv yearOf total (K ++ R) (R.foldl (yearStep yearOf total) m) := by
   induction R generalizing K m with
   | nil => simpa using h
@@ -812,11 +812,89 @@ theorem fold_yearStep_inv {yearOf : Int → Int} {total : Int → Rat} (K R : Li
 
 theorem yearly_inv (yearOf : Int → Int) (total : Int → Rat) {days : List Int} (hn : days.Nodup)
     {τ : List Int → List Int} (hτ : IsOrder τ) :
-    YearInv yearOf total (sortDays (τ days)) (yearly yearOf total days τ) := by
+    YearInv yearOf total (sortDays (τ days)) { get := yearly yearOf total days τ } := by
   have hn' : (τ days).Nodup := (hτ days).nodup_iff.mpr hn
   have := fold_yearStep_inv (yearOf := yearOf) (total := total) [] (sortDays (τ days))
-    (by simpa using sortDays_strict hn') (fun _ => none)
+    (by simpa using sortDays_strict hn') { get := fun _ => none }
     ⟨by intro y _ d hd; simp at hd, by intro y b hb; cases hb⟩
   simpa [yearly] using this
+
+/-! ### assembled facts about a completed run -/
+
+/-- Facts about a completed run, assembled once. -/
+theorem run_facts {yearOf : Int → Int} {rows : List Row} {σ : List Nat → List Nat} {τ : List Int → List Int}
+    (hwf : WF rows) (hσ : IsOrder σ) (hτ : IsOrder τ) {c : Result}
+    (h : calcTotalCosts yearOf rows σ τ = .ok c) :
+    ∃ st, Inv1 rows st ∧ Inv2 rows st (sortDays (τ st.days)) (loop2 st σ τ) ∧
+      c = { secs := st.secs, days := sortDays (τ st.days), tab := (loop2 st σ τ).tab,
+            yearly := yearly yearOf (loop2 st σ τ).tab.total st.days τ, notes := st.notes } := by
+  unfold calcTotalCosts at h
+  split at h
+  · cases h
+  · rename_i st hst
+    have inv : Inv1 rows st := by simpa using loop1_inv (P := []) rows Inv1.init hst
+    simp only [Except.ok.injEq] at h
+    exact ⟨st, inv, loop2_inv hwf inv hσ hτ, h.symm⟩
+
+theorem mem_dedup {α : Type} [DecidableEq α] (l : List α) (x : α) : x ∈ dedup l ↔ x ∈ l := by
+  induction l with
+  | nil => simp [dedup]
+  | cons a as ih =>
+    unfold dedup
+    split
+    · rename_i ha
+      rw [ih]; constructor
+      · exact fun h => by simp [h]
+      · intro h; rcases List.mem_cons.mp h with e | e
+        · exact e ▸ ha
+        · exact e
+    · simp [ih]
+
+
+/-- `Figure` determines the figure, and `figure` computes it. -/
+theorem Figure_unique {rows : List Row} {s : Nat} {d : Int} {v w : Rat}
+    (hv : Figure rows s d v) (hw : Figure rows s d w) : v = w := by
+  rcases hv with ⟨_, h1, h2⟩ | ⟨hn, h1⟩ <;> rcases hw with ⟨hne, h3, h4⟩ | ⟨hn', h3⟩
+  · have := h2 w h3; have := h4 v h1; grind
+  · exact absurd hn' ‹_›
+  · exact absurd hn hne
+  · rw [h1, h3]
+
+theorem figure_spec (rows : List Row) (s : Nat) (d : Int) : Figure rows s d (figure rows s d) := by
+  unfold figure Figure
+  cases ht : today rows s d with
+  | nil => exact Or.inr ⟨rfl, rfl⟩
+  | cons p ps =>
+    left
+    refine ⟨by simp, ?_⟩
+    have key : ∀ (l : List Rat) (a : Rat), (l.foldl max a = a ∨ l.foldl max a ∈ l) ∧ a ≤ l.foldl max a ∧
+        ∀ x ∈ l, x ≤ l.foldl max a := by
+      intro l
+      induction l with
+      | nil => intro a; simp
+      | cons x xs ih =>
+        intro a
+        obtain ⟨h1, h2, h3⟩ := ih (max a x)
+        simp only [List.foldl_cons]
+        refine ⟨?_, by grind, ?_⟩
+        · rcases h1 with e | e
+          · by_cases hax : a ≤ x
+            · right; rw [e]; have : max a x = x := by grind
+              simp [this]
+            · left; rw [e]; grind
+          · right; simp [e]
+        · intro y hy
+          rcases List.mem_cons.mp hy with e | e
+          · subst e; grind
+          · exact h3 y e
+    obtain ⟨h1, h2, h3⟩ := key ps p
+    constructor
+    · rcases h1 with e | e
+      · simp [e]
+      · simp [e]
+    · intro x hx
+      rcases List.mem_cons.mp hx with e | e
+      · subst e; exact h2
+      · exact h3 x e
 
 end Acb.Costs
